@@ -640,6 +640,20 @@ func L2Errors() []MethodCase {
 		m.HTTP.Responses = []Resp{{Error: "e_a", Status: 400}}
 		out = append(out, MethodCase{M: m, SvcErrors: []ErrorDef{{Name: "e_svc"}}, SvcHTTPErrs: []Resp{{Error: "e_svc", Status: 412}}})
 	}
+	// the same error declared on the service AND re-declared on the method, HTTP response given
+	// at service level only (error inheritance must not add it twice)
+	{
+		m := mk(map[string]string{"level": "service+method", "type": "default", "status": "distinct"})
+		m.Errors = []ErrorDef{{Name: "e_svc"}, {Name: "e_a"}}
+		m.HTTP.Responses = []Resp{{Error: "e_a", Status: 400}}
+		out = append(out, MethodCase{M: m, SvcErrors: []ErrorDef{{Name: "e_svc"}}, SvcHTTPErrs: []Resp{{Error: "e_svc", Status: 412}}, Own: true})
+	}
+	// declared at API level, referenced by service and by method, response at API level only
+	{
+		m := mk(map[string]string{"level": "api+service+method", "type": "default", "status": "distinct"})
+		m.Errors = []ErrorDef{{Name: "e_api"}}
+		out = append(out, MethodCase{M: m, SvcErrors: []ErrorDef{{Name: "e_api"}}, APIErrors: []ErrorDef{{Name: "e_api"}}, APIHTTPErrs: []Resp{{Error: "e_api", Status: 429}}, Own: true})
+	}
 	// API-level error and response
 	{
 		m := mk(map[string]string{"level": "api", "type": "default", "status": "distinct"})
